@@ -94,6 +94,10 @@ func (s PageState) Equal(other PageState) bool {
 type PageBreak struct {
 	Break string
 	Page  pr.Page
+	// Named is true when Page was decided by a change of page name or a
+	// forced break: an empty Page then means the unnamed page type,
+	// not "not known yet".
+	Named bool
 }
 
 type PageMaker struct {
